@@ -590,3 +590,77 @@ func ruleNoCrossedConfig(r *Run, rule string) {
 	}
 	r.Pass(rule, "no configuration value is copied into a sibling's slot", "", fmt.Sprintf("%d field-to-field copies inspected", n))
 }
+
+// ruleEntryVerify (C13/C17): the entry validity predicates that guard loading and AddEntry: an entry verifies
+// only if its public key is the key of its secret, the key is valid, and the address is the address of that
+// public key (a wallet never holds, and so never signs with, a key that does not own the entry's address).
+func ruleEntryVerify(r *Run, R2 string) {
+	// the entry validity predicates that guard loading and AddEntry: an entry verifies only if its public key is
+	// the key of its secret, the key is valid, and the address is the address of that public key
+	r.RequireOnSuccess(R2, "wallet.Entry.Verify",
+		req("public key derives from the secret key", "cipher.PubKeyFromSecKey($0.Secret)#0 == $0.Public"),
+		req("public key and address verified", "ok(wallet.Entry.VerifyPublic($0))"))
+	r.RequireOnSuccess(R2, "wallet.Entry.VerifyPublic",
+		req("public key valid", "ok(cipher.PubKey.Verify($0.Public))"),
+		req("address belongs to the public key", "ok(iface:cipher.Addresser.Verify($0.Address, $0.Public))"))
+	r.RequireOnSuccess(R2, "cipher.Address.Verify",
+		req("version 0", "$0.Version == 0"), req("address key is the hash of the public key", "$0.Key == cipher.PubKeyRipemd160($1)"))
+}
+
+// ruleSignedHashAcceptors (C04/C10/C33): the publisher-signature acceptor accepts only a well-formed (low s,
+// recovery id < 4) signature that recovers to, and verifies under, the given key.
+func ruleSignedHashAcceptors(r *Run, rule string) {
+	r.RequireOnSuccess(rule, "cipher.VerifyPubKeySignedHash",
+		req("recovered key equals the given key", "cipher.PubKeyFromSig($1, $2)#0 == $0"),
+		req("signature well-formed (low s, recid)", "cipher/secp256k1-go.VerifySignatureValidity($1[:]) == 1"),
+		req("signature verifies", "cipher/secp256k1-go.VerifySignature*($2[:], $1[:], $0[:]) == 1"))
+	lowS0 := []string{"($0[32] >> 7) != 1", "($0[32] >> 7) == 0", "$0[32] < 128", "($0[32] & 128) == 0", "$0[32] <= 127"}
+	r.RequireOnSuccess(rule, "cipher/secp256k1-go.VerifySignatureValidity",
+		req("65 bytes", "len($0) == 65"),
+		req("low s only", lowS0...),
+		req("recovery id below 4", "$0[64] < 4", "$0[64] <= 3"))
+	r.RequireOnSuccess(rule, "coin.SignedBlock.VerifySignature", req("checked with the signed-hash acceptor over the header hash", "ok(cipher.VerifyPubKeySignedHash($1, $0.Sig, coin.Block.HashHeader($0.Block)))"))
+}
+
+// ruleHoursSpending (C03/C33): VerifyTransactionHoursSpending succeeds only if output hours <= input hours,
+// every input counted through the checked fold, and it rejects only for the documented reasons.
+func ruleHoursSpending(r *Run, R1 string) {
+	r.RequireOnSuccess(R1, "coin.VerifyTransactionHoursSpending",
+		req("output hours do not exceed input hours", "fold[acc=0; (acc + $2[i].Body.Hours)] <= "+foldHoursIn),
+		req("input hours accumulated with overflow check over every input", "forall(i < len($1)): ok(util/mathutil.AddUint64("+foldHoursIn+", φ(0|coin.UxOut.CoinHours($1[i], $0)#0)))"),
+		req("the only tolerated CoinHours error is the addition overflow", "forall(i < len($1)): coin.UxOut.CoinHours($1[i], $0)#1 != nil => coin.UxOut.CoinHours($1[i], $0)#1 == coin.ErrAddEarnedCoinHoursAdditionOverflow"))
+	r.ExhaustiveRejects(R1, "coin.VerifyTransactionHoursSpending",
+		req("tolerated error class", "coin.UxOut.CoinHours($1[i], $0)#1 == coin.ErrAddEarnedCoinHoursAdditionOverflow"),
+		req("input sum overflow", "ok(util/mathutil.AddUint64(*"),
+		req("hours not created", "fold[acc=0; (acc + $2[i].Body.Hours)] <= *"))
+}
+
+// ruleHardBeforeSoft (C06/C11): the combined verifier reports a soft violation only for a transaction that
+// already passed the hard rules: before the hard check succeeded it can fail only with the input lookup (a hard
+// violation), the head read, or the hard check's own error.  (The unconfirmed pool stores soft-violating
+// transactions, so a hard-invalid one classified as soft would enter the pool.)
+func ruleHardBeforeSoft(r *Run, rule string) {
+	const f = "visor.Blockchain.VerifySingleTxnSoftHardConstraints"
+	fn := r.fn(rule, f)
+	if fn == nil {
+		return
+	}
+	ff := r.P.Facts(fn)
+	n := 0
+	for _, e := range ff.Exits() {
+		if e.Kind == ExitSuccess || e.Kind == ExitPanic {
+			continue
+		}
+		n++
+		var fs []string
+		for _, a := range ff.Must(e.Block) {
+			fs = append(fs, a.S)
+		}
+		fs = append(fs, e.Extra...)
+		_, hardDone := matchAny([]string{"ok(visor.Blockchain.verifySingleTxnHardConstraints($0, $1, $2, *))"}, fs)
+		pre := glob("transaction.NewErrTxnViolatesHardConstraint(iface:visor/blockdb.UnspentPooler.GetArray(*", e.Desc) || glob("visor.Blockchain.Head($0, $1)#1", e.Desc) || glob("visor.Blockchain.verifySingleTxnHardConstraints($0, $1, $2, *", e.Desc)
+		r.Check(rule, f+": error return "+trunc(e.Desc, 70)+" is a hard-phase error or follows a successful hard check", r.P.Pos(e.Pos), hardDone || pre,
+			"an error is reported before the hard constraints were checked: a hard-invalid transaction would be classified by it")
+	}
+	r.Check(rule, f+": error returns", r.P.Pos(fn.Pos()), n >= 4, fmt.Sprint(n))
+}
